@@ -18,6 +18,7 @@ Reading of the model objects
 -/
 import IblVerif.Lemmas.WaveformsSpec
 import IblVerif.Lemmas.WaveformsTemplates
+import IblVerif.Lemmas.WaveformsC13Purity
 import IblVerif.Analysis.WaveformsRadius
 import IblVerif.Generated.Constants
 
@@ -260,6 +261,91 @@ theorem loader_returns_saved (o : Output) (labels indices : Option (List Int)) :
     rw [hr]
     cases indices <;> simp_all
 
+/-! ### Round h: purity, chunk list, single-waveform templates -/
+
+/-- **The result is a function of the CURRENT file content.**  Two recordings of the same dimensions whose values agree
+inside those dimensions (whatever a `val` function says elsewhere, e.g. about an earlier file at the same path) give the same
+saved table, traces, channel map, templates and cluster aggregate, for every spike train, window, `max_wf`, chunk size and
+execution order of the domain — and the second recording is in the domain as soon as the first is. -/
+theorem extraction_depends_on_content_only (choose : Choose) (rec rec' : Arr) (cn : List (List Nat)) (sp : List Spike)
+    (off len maxWf cs cs' : Nat) (sched sched' : List Nat)
+    (d : Domain choose rec cn sp off len maxWf cs sched) (d' : Domain choose rec' cn sp off len maxWf cs' sched')
+    (hr : rec'.nrows = rec.nrows) (hn : rec'.ns = rec.ns)
+    (hv : ∀ c t, c < rec.nrows → t < rec.ns → rec'.val c t = rec.val c t) :
+    extractBin choose rec' cn sp off len maxWf cs' sched' = extractBin choose rec cn sp off len maxWf cs sched := by
+  rw [extractBin_spec choose rec cn sp off len maxWf cs sched d,
+    extractBin_spec choose rec' cn sp off len maxWf cs' sched' d',
+    specOutput_content choose rec rec' cn sp off len maxWf cs sched d hr hn hv]
+
+/-- **No state between calls.**  In a process that performs any list of extractions one after the other
+(`runHistory`), the result of a call is `extractBin` of its OWN arguments, whatever calls (on the same path or not) were
+made before or are made after it.  This is the statement the call-sequence cases of the correspondence run (same argument
+objects twice, an unrelated recording extracted from the same path first, one loader serving several loads) are tied to. -/
+theorem history_independent (pre post : List Call) (c : Call) :
+    (runHistory (pre ++ c :: post))[pre.length]? = some (extractBin c.choose c.file c.cn c.sp c.off c.len c.maxWf c.cs c.sched) :=
+  runHistory_at pre post c
+
+/-- **The chunks partition the recording**, for EVERY chunk size `cs ≥ 1` and recording length `ns ≥ 1` (also when `cs` does
+not divide `ns`, when the last chunk is shorter than a window, when `cs ≥ ns`): there are `⌈ns/cs⌉ ≥ 1` chunks, chunk `i` is
+the non-empty range `[i·cs, chunkEnd i)` with `chunkEnd i = (i+1)·cs` except for the last chunk whose end is `ns`, and every
+sample of the recording lies in exactly one chunk (number `s / cs`). -/
+theorem chunks_partition_recording (ns cs : Nat) (hns : 0 < ns) (hcs : 0 < cs) :
+    0 < (chunkStarts ns cs).length ∧
+    chunkEnd ns cs (chunkStarts ns cs).length ((chunkStarts ns cs).length - 1) = ns ∧
+    (∀ i, i + 1 < (chunkStarts ns cs).length → chunkEnd ns cs (chunkStarts ns cs).length i = (i + 1) * cs) ∧
+    (∀ i, i < (chunkStarts ns cs).length →
+      i * cs < chunkEnd ns cs (chunkStarts ns cs).length i ∧ chunkEnd ns cs (chunkStarts ns cs).length i ≤ ns) ∧
+    (∀ s, s < ns → s / cs < (chunkStarts ns cs).length ∧ (s / cs) * cs ≤ s ∧
+      s < chunkEnd ns cs (chunkStarts ns cs).length (s / cs) ∧
+      ∀ j, j < (chunkStarts ns cs).length → j * cs ≤ s → s < chunkEnd ns cs (chunkStarts ns cs).length j → j = s / cs) := by
+  have hpos : 0 < (chunkStarts ns cs).length := by
+    rw [nchunks_eq]; exact Nat.div_pos (by omega) hcs
+  refine ⟨hpos, ?_, ?_, ?_, ?_⟩
+  · unfold chunkEnd
+    have : (chunkStarts ns cs).length - 1 + 1 = (chunkStarts ns cs).length := by omega
+    simp [this]
+  · intro i hi
+    unfold chunkEnd
+    have : ¬ (i + 1 = (chunkStarts ns cs).length) := by omega
+    simp only [this, if_false]
+    rw [Nat.add_mul]; omega
+  · intro i hi
+    have := chunkEnd_le ns cs i hcs hi
+    exact ⟨this.2.2, this.1⟩
+  · intro s hs
+    have h1 : s / cs * cs ≤ s := Nat.div_mul_le_self s cs
+    have hlt : s / cs < (chunkStarts ns cs).length := by
+      rw [nchunks_eq, lt_nchunks_iff ns cs _ hcs]; omega
+    refine ⟨hlt, h1, ?_, ?_⟩
+    · have h2 : s < cs * (s / cs + 1) := Nat.lt_mul_div_succ s hcs
+      have h3 : cs * (s / cs + 1) = s / cs * cs + cs := by rw [Nat.mul_add, Nat.mul_comm]; omega
+      unfold chunkEnd
+      split
+      · exact hs
+      · omega
+    · intro j hj hjs hse
+      have hje := (chunkEnd_le ns cs j hcs hj).2.1
+      have ha : j ≤ s / cs := (Nat.le_div_iff_mul_le hcs).mpr hjs
+      have hb : s / cs < j + 1 := (Nat.div_lt_iff_lt_mul hcs).mpr (by rw [Nat.add_mul]; omega)
+      omega
+
+/-- **Template of a unit with ONE waveform** is that waveform (doubled, as all model templates are; NaN stays NaN): for every
+waveform of `nnb` rows of `len` samples. -/
+theorem template_single_waveform (nnb len : Nat) (w : Wf) (hw : w.length = nnb) (hrow : ∀ r ∈ w, r.length = len) :
+    template2 nnb len [w] = w.map (fun r => r.map (fun x => x.map (2 * ·))) := by
+  unfold template2
+  apply List.ext_getElem
+  · simp [hw]
+  · intro c h1 h2
+    have hc : c < w.length := by simpa using h2
+    simp only [List.getElem_map, List.getElem_range, List.map_cons, List.map_nil, nanmedian2_single]
+    have hl : (w[c]).length = len := hrow _ (List.getElem_mem hc)
+    apply List.ext_getElem
+    · simp [hl]
+    · intro t h3 h4
+      have ht : t < (w[c]).length := by simpa using h4
+      simp [List.getD_eq_getElem?_getD, List.getElem?_eq_getElem hc, List.getElem?_eq_getElem ht]
+
 /-! ### Non-vacuity: the hypotheses are satisfiable on non-trivial values -/
 
 /-- a 4-site column with 20 µm pitch, radius 20: interior sites have 3 neighbours, the ends 2 + padding -/
@@ -306,6 +392,21 @@ example : writeChunk ⟨1, 100, fun _ t => some (t : Int)⟩ [[0]] 2 4 50 100 2 
 example : ∀ u ∈ unitIds [⟨5, 1, 0⟩, ⟨50, 2, 0⟩, ⟨50, 1, 0⟩, ⟨60, 1, 0⟩, ⟨97, 1, 0⟩],
     ∃ s ∈ [(⟨5, 1, 0⟩ : Spike), ⟨50, 2, 0⟩, ⟨50, 1, 0⟩, ⟨60, 1, 0⟩, ⟨97, 1, 0⟩],
       s.cluster = u ∧ allowed 100 2 4 s.sample = true := by decide +kernel
+
+/-- `extraction_depends_on_content_only`: the domain example and a recording that differs only OUTSIDE its dimensions
+(row 7, sample 500) — both in the domain, same result -/
+example : Domain (fun _ cand k => cand.take k) ⟨1, 100, fun c t => if c < 1 ∧ t < 100 then some (t : Int) else some 77⟩ [[0]]
+    [⟨5, 1, 0⟩, ⟨50, 2, 0⟩, ⟨50, 1, 0⟩, ⟨60, 1, 0⟩, ⟨97, 1, 0⟩] 2 4 2 50 [1, 0] :=
+  Domain.content (rec := ⟨1, 100, fun _ t => some (t : Int)⟩)
+    { law := (lawfulAll_iff _ _ _ _ _ _).mp (by decide +kernel), sortedInTime := by decide, peaks := by decide,
+      table := by decide, offLen := by decide, offCs := by decide, csPos := by decide, maxWfPos := by decide,
+      someValid := ⟨⟨5, 1, 0⟩, by decide, by decide⟩, sched := by decide +kernel } _ rfl rfl
+
+/-- `chunks_partition_recording`: 1001 samples in chunks of 500 — three chunks, the last one of a single sample -/
+example : (chunkStarts 1001 500).length = 3 ∧ chunkEnd 1001 500 3 2 = 1001 ∧ chunkEnd 1001 500 3 1 = 1000 := by decide
+
+/-- `template_single_waveform`: one waveform of 2 rows x 2 samples with a NaN -/
+example : template2 2 2 [[[some 3, none], [some (-1), some 4]]] = [[some 6, none], [some (-2), some 8]] := by decide +kernel
 
 /-- the constants the code owns: defaults of `_make_wfs_table` (the correspondence run also asserts that
 `extract_wfs_array` and `extract_wfs_cbin` carry the same defaults) -/
